@@ -37,9 +37,17 @@ type startKind struct {
 	seed    string
 }
 
+func (k startKind) invalid() bool { return k.kind == "bad-iat" || k.kind == "bad-explicit" }
+
 func (k startKind) args() *pt.Args {
 	a := &pt.Args{}
 	switch k.kind {
+	case "bad-iat":
+		a.Add("iat-mode", fmt.Sprint(k.iat))
+	case "bad-explicit":
+		a.Add("node-id", k.nodeID)
+		a.Add("private-key", k.privKey)
+		a.Add("drbg-seed", k.seed)
 	case "iat":
 		a.Add("iat-mode", fmt.Sprint(k.iat))
 	case "explicit":
@@ -55,6 +63,10 @@ func (k startKind) args() *pt.Args {
 
 func (k startKind) String() string {
 	switch k.kind {
+	case "bad-iat":
+		return fmt.Sprintf("start(INVALID iat-mode=%d)", k.iat)
+	case "bad-explicit":
+		return fmt.Sprintf("start(MALFORMED explicit identity: node-id %d hex digits, key %d, seed %d)", len(k.nodeID), len(k.privKey), len(k.seed))
 	case "iat":
 		return fmt.Sprintf("start(iat-mode=%d)", k.iat)
 	case "explicit":
@@ -99,6 +111,32 @@ func identOf(sf base.ServerFactory) ident {
 	return ident{cert, iat}
 }
 
+// drawAnyKind also produces starts that must be rejected: an out-of-range
+// iat-mode override or malformed explicit identity arguments.
+func drawAnyKind(c *harness.Ctx, label string) startKind {
+	t := c.T
+	switch t.Draw(label+".bad", 5) {
+	case 3:
+		return startKind{kind: "bad-iat", iat: []int{3, -1, 7, 100}[t.Draw(label+".badiat", 4)]}
+	case 4:
+		b := make([]byte, 20+32+24)
+		c.Rand.Fill("cfg.explicit", b)
+		k := startKind{kind: "bad-explicit", iat: -1, nodeID: hex.EncodeToString(b[:20]), privKey: hex.EncodeToString(b[20:52]), seed: hex.EncodeToString(b[52:])}
+		switch t.Draw(label+".badx", 4) {
+		case 0:
+			k.nodeID = k.nodeID[:39] // odd number of hex digits
+		case 1:
+			k.privKey = k.privKey[:62] // short key
+		case 2:
+			k.seed = k.seed[:20] // short seed
+		case 3:
+			k.nodeID = "zz" + k.nodeID[2:] // not hex
+		}
+		return k
+	}
+	return drawKind(c, label)
+}
+
 func drawKind(c *harness.Ctx, label string) startKind {
 	t := c.T
 	switch t.Draw(label+".kind", 4) {
@@ -130,7 +168,20 @@ func runC18(c *harness.Ctx) {
 	nBase := 1 + t.Draw("nbase", 3)
 	for i := 0; i < nBase; i++ {
 		k := drawKind(c, "base")
+		if i > 0 {
+			k = drawAnyKind(c, "base")
+		}
 		r := start(c, nextName(), k)
+		if k.invalid() {
+			// a start with bad arguments must be refused and must leave what is persisted alone
+			if r.err == nil && !r.crashed {
+				c.Violate("C18/invalid-arguments-accepted", "%v after history %v was accepted", k, hist)
+				return
+			}
+			c.Feature("rejected-start-in-history")
+			hist = append(hist, k.kind)
+			continue
+		}
 		if r.crashed || r.err != nil {
 			c.Violate("C18/fault-free-start-failed", "%v after history %v: err=%v", k, hist, r.err)
 			return
@@ -169,7 +220,7 @@ func runC18(c *harness.Ctx) {
 	// any kind, then a plain one (the same sequence for every crash point)
 	var post []startKind
 	for i, n := 0, t.Draw("npost", 3); i < n; i++ {
-		post = append(post, drawKind(c, "post"))
+		post = append(post, drawAnyKind(c, "post"))
 	}
 	// ---- the next start is interrupted at every disk step
 	k := drawKind(c, "next")
@@ -236,6 +287,14 @@ func runC18(c *harness.Ctx) {
 					d.ResetPlan()
 					pr := start(c, nextName(), pk)
 					what += fmt.Sprintf("; then %v", pk)
+					if pk.invalid() {
+						if pr.err == nil && !pr.crashed {
+							c.Violate("C18/invalid-arguments-accepted", "%s: accepted", what)
+							failed = true
+							break
+						}
+						continue
+					}
 					if pr.crashed || pr.err != nil {
 						c.Violate("C18/identity-lost", "%s: this later start fails with %q; the bridge had identity %v; files now: %s", what, pr.err, *durable, describe(d))
 						failed = true
